@@ -97,6 +97,7 @@ class Engine:
                 f"\n\n\\begin{{equation}}\nz=1\n\\end{{equation}}\n\n$$\ny\n$$ ({d.replace('/', '-')}-eqx)\n\n"
                 f"{{eq}}`{other.replace('/', '-')}-eqx`\n",
                 "\n\n# Intro\n\n# Intro\n\ntext[^z]\n\n[^z]: zed\n",
+                "\n\n```{include} no-such-file.inc\n```\n\nafter the missing include\n",
             ])
             files[d + ".md"] = files[d + ".md"].rstrip("\n") + extra
         docnames = sorted(x[:-3] for x in docs)
@@ -361,6 +362,11 @@ class Engine:
                 step //= 2
         for key in sorted(plan["cfg"]):
             yield {**plan, "cfg": {k: v for k, v in plan["cfg"].items() if k != key}}
+        for key in sorted(plan["cfg"]):  # single elements of list-valued settings
+            val = plan["cfg"][key]
+            if isinstance(val, list) and len(val) > 1:
+                for j in range(len(val)):
+                    yield {**plan, "cfg": {**plan["cfg"], key: val[:j] + val[j + 1:]}}
 
 
 # ---------------------------------------------------------------------- one build (in a pristine child)
